@@ -1,6 +1,6 @@
 """C01: ordinary cell hash/depth = TON representation hash/depth, through every construction route."""
 from ..gen import cells as G
-from ..translate import arith, cellctor
+from ..translate import arith, cellctor, cellentry
 
 SPEC = dict(
     manifest=dict(
@@ -11,7 +11,9 @@ SPEC = dict(
     ),
     translators=[('cell.py d1/d2/depth-limit->Generated/CellArith.lean', arith.regenerator('CellArith')),
                  ('exotic.py LevelMask->Generated/LevelMask.lean', arith.regenerator('LevelMask')),
-                 ('cell.py Cell.__init__/resolve_mask/calculate_hashes/get_data_bytes->Generated/CellCtor.lean', cellctor.regenerate)],
+                 ('cell.py Cell.__init__/resolve_mask/calculate_hashes/get_data_bytes->Generated/CellCtor.lean', cellctor.regenerate),
+                 (cellentry.TIE_NAME, cellentry.regenerate)],
+    lean_targets=['TonVerif.Proofs.SrcCellEntry'],
     design_ref='DESIGN.md §6 C01',
     rule='ordinary-cell DAGs: every bit length class (all 1024 lengths in thorough), 0-4 refs, sharing, chains to depth 1022/1023/1024; '
          'each node observed through routes ctor/plain-bitarray/builder/boc/copy/slice/to_builder; distinct = distinct (dag, node, route); '
@@ -191,6 +193,18 @@ def src_search(ctx):
     found.sort(key=lambda f: sum(len(n[1]) for n in f[1]))
     for tag, nodes, idx in found[:40]:
         check_dag(ctx, nodes[:max(idx) + 1], f'src-ctor-{tag}', derive=False, routes=['ctor'])
+        if len(ctx.failures) > n0 + 3:
+            break
+    if len(ctx.failures) > n0:
+        return True
+    # the cells on which the REGENERATED get_representation / calculate_representation_hash / __eq__ / __hash__
+    # (Generated/CellEntry.lean) and the hand model differ: check_dag compares the library's calculate_representation_hash and
+    # __hash__ with the spec, eq_pairs judges == / hash() / dict lookup over all pairs of the DAG
+    found = cellentry.diff_dags(ctx, dags)
+    found.sort(key=lambda f: sum(len(n[1]) for n in f[1]))
+    for tag, nodes, idx in found[:40]:
+        check_dag(ctx, nodes[:max(idx) + 1], f'src-entry-{tag}', derive=False, routes=['ctor'])
+        eq_pairs(ctx, nodes[:max(idx) + 1])
         if len(ctx.failures) > n0 + 3:
             break
     return len(ctx.failures) > n0
